@@ -203,7 +203,11 @@ type execution struct {
 	obs     string // canonical text of all observations (determinism check)
 }
 
-func isConflict(err error) bool { return err != nil && errors.Is(err, badgerdb.ErrConflict) }
+// isConflict: the store refused the transaction (optimistic conflict, or badger's per-transaction size limit): the
+// operation must then have had no effect.
+func isConflict(err error) bool {
+	return err != nil && (errors.Is(err, badgerdb.ErrConflict) || errors.Is(err, badgerdb.ErrTxnTooBig))
+}
 
 // observeState reads the whole API-visible state into a model database.
 func observeState(in *drv.Inst) (*m.DB, []Finding) {
